@@ -103,7 +103,16 @@ def worker(job):
                 break
             if not progs.same_value(got, ev):
                 close = progs.same_value(got, ev, ulps=4)
-                rec["fail"].append({**case, "kind": "ulp-diff" if close else progs.diff_kind(got, ev), "step": j,
+                # the exported model, or onnxruntime's graph optimiser?  (same model, optimisations disabled)
+                suffix = ""
+                if not close:
+                    try:
+                        _, outs0 = progs.build_and_run(prog, S, arrs, lres, [vals], optimise=False)
+                        if all(e2 is not None and progs.same_value(outs0[0][q], e2) for q, e2 in enumerate(evals)):
+                            suffix = "-only-with-onnxruntime-graph-optimizations"
+                    except Exception:
+                        pass
+                rec["fail"].append({**case, "kind": "ulp-diff" if close else progs.diff_kind(got, ev) + suffix, "step": j,
                                     "cause": (progs.where_cause(prog, j, vals, evals) if prog["steps"][j]["op"] == "where"
                                               else progs.step_cause(prog, j, S)),
                                     "op": prog["steps"][j]["op"],
